@@ -55,7 +55,7 @@ static ExecResult execute_plan(Plan &plan, uint64_t index) {
     set_current_run_info(index, plan.seed, plan.world.c_str());
     run_begin(cfg_from_plan(plan));
     set_exact_fit(plan.get("exact_fit", 0) != 0);
-    alarm((unsigned)plan.get("wall_cap_s", 120));
+    alarm((unsigned)plan.get("wall_cap_s", 30));
     r.nontrivial = w->execute(plan);
     alarm(0);
     run_end(r.stats);
@@ -87,6 +87,18 @@ static bool flag(int argc, char **argv, const char *name) {
     for (int i = 2; i < argc; i++)
         if (strcmp(argv[i], name) == 0) return true;
     return false;
+}
+
+// --set key=value (repeatable): overrides of the generated swarm configuration (e.g. the C16 check forces the
+// quarantine placement so that lifetime errors are exact)
+static void apply_overrides(int argc, char **argv, Plan &plan) {
+    for (int i = 2; i + 1 < argc; i++) {
+        if (strcmp(argv[i], "--set") != 0) continue;
+        std::string kv = argv[i + 1];
+        size_t      eq = kv.find('=');
+        if (eq == std::string::npos) continue;
+        plan.cfg[kv.substr(0, eq)] = strtoll(kv.c_str() + eq + 1, nullptr, 10);
+    }
 }
 
 static std::string read_file(const std::string &path) {
@@ -129,6 +141,7 @@ static int cmd_search(int argc, char **argv) {
         plan.world = wname;
         plan.seed  = run_seed(master, wname.c_str(), i);
         w->generate(plan, plan.seed, tier);
+        apply_overrides(argc, argv, plan);
         std::string before_text;
         if (samples.size() < 3 && (k % 7) == 0) before_text = plan.to_text();
         ExecResult r = execute_plan(plan, i);
@@ -210,6 +223,7 @@ static int cmd_gen(int argc, char **argv) {
     plan.world = wname;
     plan.seed  = run_seed(master, wname.c_str(), index);
     w->generate(plan, plan.seed, tier);
+    apply_overrides(argc, argv, plan);
     fputs(plan.to_text().c_str(), stdout);
     return 0;
 }
@@ -444,15 +458,17 @@ static int cmd_shrink(int argc, char **argv) {
     const std::string path   = arg(argc, argv, "--plan", "");
     const std::string out    = arg(argc, argv, "--out", "");
     const std::string target = hex_decode(arg(argc, argv, "--sig", ""));
-    const int         budget = atoi(arg(argc, argv, "--budget", "600").c_str());
+    const int         budget = atoi(arg(argc, argv, "--budget", "3000").c_str());
     const double      tmax   = atof(arg(argc, argv, "--time-s", "90").c_str());
     Plan              plan;
     if (!plan.from_text(read_file(path))) return 2;
     runtime_init();
     int    tries = 0;
     double t0    = now_s();
-    auto   still = [&](const Plan &p) {
+    auto   still = [&](const Plan &p0) {
         tries++;
+        Plan p = p0;
+        if (p.cfg.find("wall_cap_s") == p.cfg.end()) p.cfg["wall_cap_s"] = 4; // candidates that hang must not eat the budget
         auto s = run_child(p);
         return s.count(target) != 0;
     };
@@ -510,17 +526,32 @@ static int cmd_shrink(int argc, char **argv) {
         // 4. simpler arguments
         for (size_t i = 0; i < plan.ops.size() && !out_of_budget(); i++) {
             for (size_t k = 0; k < plan.ops[i].s.size() && !out_of_budget(); k++) {
-                const std::string cur = plan.ops[i].s[k];
-                if (cur.empty()) continue;
-                for (std::string cand : {std::string(), cur.substr(0, cur.size() / 2), cur.substr(cur.size() / 2)}) {
-                    if (cand.size() >= cur.size()) continue;
+                // delta debugging on the string at 4-byte (one code unit) granularity: drop chunks of halving size
+                if (plan.ops[i].s[k].empty()) continue;
+                {
                     Plan c        = plan;
-                    c.ops[i].s[k] = cand;
+                    c.ops[i].s[k] = std::string();
                     if (still(c)) {
                         plan     = c;
                         progress = true;
-                        break;
+                        continue;
                     }
+                }
+                const size_t gran = (plan.ops[i].s[k].size() % 4 == 0) ? 4 : 1;
+                for (size_t chunk = std::max<size_t>(1, plan.ops[i].s[k].size() / gran / 2); chunk >= 1 && !out_of_budget(); chunk /= 2) {
+                    for (size_t at = 0; at < plan.ops[i].s[k].size() / gran && !out_of_budget();) {
+                        const std::string &cur = plan.ops[i].s[k];
+                        size_t             e   = std::min(cur.size() / gran, at + chunk);
+                        Plan               c   = plan;
+                        c.ops[i].s[k]          = cur.substr(0, at * gran) + cur.substr(e * gran);
+                        if (still(c)) {
+                            plan     = c;
+                            progress = true;
+                        } else {
+                            at += chunk;
+                        }
+                    }
+                    if (chunk == 1) break;
                 }
             }
             for (int k = 0; k < 6 && !out_of_budget(); k++) {
